@@ -29,6 +29,7 @@ def property_theorems(pid):
 def run_property(mod, pid, tier, seed, replay):
     level = getattr(mod, "LEVEL", "proof")
     rep = Report(pid, level, tier, seed)
+    rep.is_replay = bool(replay)
     # 1. hygiene
     bad = hygiene()
     if bad:
